@@ -117,5 +117,5 @@ def run(chk):
         chk.ob('enable-and-hlt', 'one asm block whose instructions are exactly sti, hlt', ok and len(a) == 1 and SI.insns(a[0][1]) == SI.ENABLE_AND_HLT and not a[0][2],
                'asm %r' % ([x[1] for x in a],), fn_site(I, fn_), sample=[x[1] for x in a])
     chk.guard('enable-and-hlt', 'enable_and_hlt', eah)
-    chk.guard('asm-options', 'interrupt flag', lambda: asm_not_pure(chk, chk.I, 'asm-options', ['src/instructions/interrupts.rs', 'src/registers/rflags.rs'], 7))
+    chk.guard('asm-options', 'interrupt flag', lambda: asm_not_pure(chk, chk.I, 'asm-options', ['src/instructions/interrupts.rs', 'src/registers/rflags.rs'], 4))
     chk.floor('obligations', len(chk.obs), 20)
